@@ -209,3 +209,49 @@ def rf46(run):
                           'alloca: %s' % (c, 'it is executed more than once' if c == 'MIR_LABEL' else 'a call in front of it is inlined with '
                                           'a frame address computed from the alloca register before the alloca has executed'), line=site['l'])
     run.min_instances(rule, 4)
+
+
+# ---------------------------------------------------------------------------------------------
+# RF50: the inliner maps every callee register to a register created for this inlining
+# ---------------------------------------------------------------------------------------------
+
+def rf50(run):
+    rule = 'RF50'
+    run.rule(rule, 'every set_inline_reg_map (ctx, old, new) in mir.c binds a callee register to a register that was created for this '
+                   'inlining by MIR_new_func_reg / MIR_new_global_func_reg (a renamed copy), never to an already existing register of '
+                   'the caller such as the register holding an argument: the inlined body assigns call results one after another and '
+                   'would overwrite a caller register that still stands for a parameter')
+    tu = run.tu('mir')
+    n = 0
+    FRESH = ('MIR_new_func_reg', 'MIR_new_global_func_reg', '_MIR_new_temp_reg', 'new_temp_reg')
+    for f in tu.func_list:
+        if f.body is None or f.name == 'set_inline_reg_map':
+            continue
+        for x in f.walk():
+            if x['k'] != 'CallExpr' or x.get('callee') != 'set_inline_reg_map':
+                continue
+            n += 1
+            run.functions_analysed.add(('mir', f.name))
+            a = F.strip(F.call_args(x)[2])
+            fresh = False
+            if a['k'] == 'CallExpr' and a.get('callee') in FRESH:
+                fresh = True
+            elif a['k'] == 'DeclRefExpr':
+                srcs = []
+                for y in f.walk():
+                    if y['k'] == 'BinaryOperator' and y['op'] == '=' and F.src(F.strip(y['c'][0])) == a['n']:
+                        srcs.append(F.strip(y['c'][1]))
+                    if y['k'] == 'DeclStmt':
+                        for d in y['decls']:
+                            if d['n'] == a['n'] and d.get('init') is not None:
+                                srcs.append(F.strip(d['init']))
+                fresh = bool(srcs) and all(s_['k'] == 'CallExpr' and s_.get('callee') in FRESH for s_ in srcs)
+            run.ob(rule, (f.name, x['l']), fresh, {'site': '%s:%d' % (f.name, x['l']), 'new register': F.src(a), 'created for this inlining': fresh})
+            if not fresh:
+                run.violation(rule, f, 'register map entry %s' % F.src(x)[:70],
+                              '%s maps a callee register to %s, which is not a register created for this inlining: the callee register becomes '
+                              'an alias of a live caller register (e.g. the argument register), and the sequential assignment of the call '
+                              'results or any later write in the caller changes what the inlined body reads' % (f.name, F.src(a)), line=x['l'])
+    if n < 1:
+        raise F.AnalysisBroken('no call of set_inline_reg_map found')
+    return n
